@@ -177,6 +177,14 @@ def independent(atoms, cfg):
         out["dim"] = None if d is None else int(d)
     except Exception as e:  # noqa
         out["dim"] = "ERR:" + type(e).__name__ + ": " + str(e)[:100]
+    # the same number from first principles, without matid (brute-force image sums, integer rank of the cycle voltages)
+    try:
+        from lib import dim_oracle
+        from ase.data import covalent_radii
+        out["dim_oracle"] = dim_oracle.dimensionality(w.get_positions(), np.array(w.get_cell()), w.get_pbc(),
+                                                      [float(covalent_radii[z]) for z in w.get_atomic_numbers()], thr)
+    except Exception as e:  # noqa
+        out["dim_oracle"] = {"dim": None, "decided": False, "why": "oracle raised " + type(e).__name__ + ": " + str(e)[:100], "rank2": None}
     try:
         dist = G.get_distances(w)
         min_basis = np.linalg.norm(w.get_cell(), axis=1).min()
